@@ -374,6 +374,7 @@ func runC06(ctx *Ctx) {
 			pages = append(pages, u)
 		}
 		srcsetCorr(ctx, ctx.pick(4000, 200000), pages).run(ctx)
+		createAbsCorr(ctx, ctx.pick(6000, 300000)).run(ctx)
 	}
 	if ctx.Replay == "" {
 		// one Options value (and so one page URL object) reused for a series of pages, with
